@@ -148,6 +148,11 @@ def streamOff (id : Nat) (b : BS) : BS := { b with st := Chan.streamExit id true
 def closeUb (b : BS) : BS := { b with ubLog := some (logOf 1 b.st.fwd) }
 def closeLnx (b : BS) : BS := { b with lnxLog := some (logOf 2 b.st.fwd) }
 
+/-- `T is not None and x > T` -/
+def exceeds (x : Nat) : Option Nat → Bool
+  | some T => decide (T < x)
+  | none => false
+
 /-- `_timeout_remaining()`: what is left of `boot_timeout`, `TimeoutError` when nothing is -/
 def tmoRemaining (T : Option Nat) (start : Nat) (b : BS) : Except Exc (Option Nat) :=
   match Chan.remaining T start b.st.now with
@@ -172,7 +177,7 @@ def ubAutoboot (c : UbCfg) (p : Pat) (start : Nat) (b : BS) : R Unit :=
 def ubLoop (T : Option Nat) (start cap : Nat) : Nat → BS → R Unit
   | 0, b => (.error .fuel, b)
   | f + 1, b =>
-    if (match T with | some T => decide (T < b.st.now - start) | none => false) then (.error .timeout, b) else
+    if exceeds (b.st.now - start) T then (.error .timeout, b) else
     match rd (Chan.readUntilPrompt none (some Params.ubootPollRead)) b with
     | (.ok _, b) => (.ok (), b)
     | (.error .timeout, b) =>
@@ -231,36 +236,44 @@ def lnxAskfirst (c : LnxCfg) (banner : Bytes) (b : BS) : R Nat :=
     | (.error e, b) => (.error e, closeLnx (streamOff 2 b))
     | (.ok _, b) => (.ok start, streamOff 2 b)
 
+/-- `self.ch.read_until_prompt(prompt=self.login_prompt, timeout=self._timeout_remaining())` -/
+def lnxLoginWait (c : LnxCfg) (start : Nat) (b : BS) : R Unit :=
+  match tmoRemaining c.timeout start b with
+  | .error e => (.error e, b)
+  | .ok rem =>
+    match rd (Chan.readUntilPrompt (some (.lit c.login)) rem) b with
+    | (.error e, b) => (.error e, b)
+    | (.ok _, b) => (.ok (), b)
+
 /-- the `login_delay != 0` branch -/
 def lnxDelay (c : LnxCfg) (start : Nat) (b : BS) : R Unit :=
   match tmoRemaining c.timeout start b with
   | .error e => (.error e, b)
   | .ok rem =>
-    if (match rem with | some r => decide (r < c.delay) | none => false) then (.error .timeout, b) else
+    if exceeds c.delay rem then (.error .timeout, b) else
     match rd (Chan.readUntilTimeout (some c.delay)) b with
     | (.error e, b) => (.error e, b)
     | (.ok _, b) =>
       match wr (Chan.sendline [] false none) b with
       | (.error e, b) => (.error e, b)
-      | (.ok _, b) =>
-        match tmoRemaining c.timeout start b with
-        | .error e => (.error e, b)
-        | .ok rem =>
-          match rd (Chan.readUntilPrompt (some (.lit c.login)) rem) b with
-          | (.error e, b) => (.error e, b)
-          | (.ok _, b) => (.ok (), b)
+      | (.ok _, b) => lnxLoginWait c start b
+
+/-- the time-out of the wait for the password prompt: what remains of `boot_timeout`, capped by
+    `no_password_timeout` -/
+def pwTimeout (noPw rem : Option Nat) : Option Nat :=
+  match noPw with
+  | none => rem
+  | some n =>
+    match rem with
+    | none => some n
+    | some t => some (min t n)
 
 /-- the `password is not None` branch -/
 def lnxPassword (c : LnxCfg) (pw : Bytes) (start : Nat) (b : BS) : R Unit :=
   match tmoRemaining c.timeout start b with
   | .error e => (.error e, b)
   | .ok rem =>
-    let timeout := match c.noPw with
-      | none => rem
-      | some n => match rem with
-        | none => some n
-        | some t => some (min t n)
-    match rd (Chan.readUntilPrompt (some c.pwPrompt) timeout) b with
+    match rd (Chan.readUntilPrompt (some c.pwPrompt) (pwTimeout c.noPw rem)) b with
     | (.error .timeout, b) =>
       -- `_timeout_remaining()` aborts if the boot time-out was reached; else go on without
       match tmoRemaining c.timeout start b with
@@ -272,21 +285,18 @@ def lnxPassword (c : LnxCfg) (pw : Bytes) (start : Nat) (b : BS) : R Unit :=
 /-- the body of `LinuxBootLogin._init_machine` inside the stream attachment -/
 def lnxLoginBody (c : LnxCfg) (start : Nat) (b : BS) : R Unit :=
   -- the first login wait gets the time that remains of `boot_timeout` (F10 repaired)
-  match tmoRemaining c.timeout start b with
-  | .error e => (.error e, b)
-  | .ok rem =>
-    match rd (Chan.readUntilPrompt (some (.lit c.login)) rem) b with
+  match lnxLoginWait c start b with
+  | (.error e, b) => (.error e, b)
+  | (.ok _, b) =>
+    match (if c.delay = 0 then ((.ok (), b) : R Unit) else lnxDelay c start b) with
     | (.error e, b) => (.error e, b)
     | (.ok _, b) =>
-      match (if c.delay = 0 then ((.ok (), b) : R Unit) else lnxDelay c start b) with
+      match wr (Chan.sendline c.user false none) b with
       | (.error e, b) => (.error e, b)
       | (.ok _, b) =>
-        match wr (Chan.sendline c.user false none) b with
-        | (.error e, b) => (.error e, b)
-        | (.ok _, b) =>
-          match c.password with
-          | none => (.ok (), b)
-          | some pw => lnxPassword c pw start b
+        match c.password with
+        | none => (.ok (), b)
+        | some pw => lnxPassword c pw start b
 
 /-- `LinuxBootLogin._init_machine`; `start?` is `_boot_start` as `AskfirstInitializer` left it -/
 def lnxLogin (c : LnxCfg) (start? : Option Nat) (b : BS) : R Unit :=
